@@ -47,6 +47,9 @@ var (
 	aergo1 = new(big.Int).Exp(big.NewInt(10), big.NewInt(18), nil)
 	min0   = new(big.Int).Mul(big.NewInt(10000), aergo1) // default staking minimum, 10,000 aergo
 	one    = big.NewInt(1)
+	// big80 = 2^80 aer (about 121 staking minimums): the smallest amount whose minimal big-endian
+	// encoding has 11 bytes; min .. big80-1 have 10
+	big80 = new(big.Int).Lsh(big.NewInt(1), 80)
 	zero   = big.NewInt(0)
 
 	daoChoices = []daoChoice{
@@ -63,7 +66,7 @@ var (
 func (o op) String() string {
 	switch o.Kind {
 	case opStake:
-		return "stake(" + [...]string{"min", "min+1", "2min"}[o.Arg] + ")"
+		return "stake(" + [...]string{"min", "min+1", "2min", "up to 2^80 aer"}[o.Arg] + ")"
 	case opUnstake:
 		return "unstake(" + [...]string{"part", "all", "stake+1"}[o.Arg] + ")"
 	case opVoteBP:
@@ -120,11 +123,14 @@ type model struct {
 	nameBal *big.Int
 }
 
-func newModel(initBal *big.Int) *model {
+func newModel(initBal *big.Int, rich bool) *model {
 	m := &model{sysBal: new(big.Int), nameBal: new(big.Int)}
 	for i := range m.a {
 		m.a[i].bal = new(big.Int).Set(initBal)
 		m.a[i].staked = new(big.Int)
+	}
+	if rich {
+		m.a[nAcct-1].bal.Add(m.a[nAcct-1].bal, big80)
 	}
 	return m
 }
@@ -151,6 +157,11 @@ func (m *model) amount(x int, o op, w witness) *big.Int {
 			return min0
 		case 1:
 			return new(big.Int).Add(min0, one)
+		case 3: // brings the stake to exactly 2^80 aer (11-byte encoding); beyond that: min
+			if a.staked.Cmp(big80) < 0 {
+				return new(big.Int).Sub(big80, a.staked)
+			}
+			return min0
 		default:
 			return new(big.Int).Mul(min0, big.NewInt(2))
 		}
